@@ -321,12 +321,15 @@ P("C16", ["LC.Props.C16", "LC.Props.C13"],
   ["normaliser outputs are not modelled"], trusted=V1_TB)
 
 P("C17", ["LC.Props.C17"],
-  [rootrun("stringclassifier/searchset", "searchset", "overlay/searchset/zz_verif_test.go", "TestVerifC17")],
+  [rootrun("stringclassifier/searchset", "searchset", "overlay/searchset/zz_verif_test.go", "TestVerifC17"),
+   rootrun("stringclassifier", "stringclassifier", "overlay/stringclassifier/zz_verif_test.go", "TestVerifC13")],
   "Tokenize on generated strings (Unicode, punctuation, invalid UTF-8, random bytes, repetitive low-vocabulary text) compared "
   "with the model and checked for text/offset/order/coverage (every byte of every character); FindPotentialMatches on "
   "source/target pairs (target contains / edits / is unrelated to the source): every candidate non-empty, ordered, inside the "
   "token bounds, TargetRange inside the string; the post-processing stages also on synthetic sorted lists (400 quick / 60000 "
-  "thorough), model and real functions compared. distinct = input; non-trivial = more than one token / at least one candidate",
+  "thorough), model and real functions compared; the last sentence (a Match's Offset/Extent slices the normalised input) is "
+  "evaluated on every MultipleMatch of the C13 harness run, incl. truncated copies at the very end of the text. distinct = "
+  "input; non-trivial = more than one token / at least one candidate",
   "tokenize_faithful, uncovered_is_space, targetRange_ok, encode_decode are proved for EVERY byte string; post_inv / post_ne / "
   "candidate_byte_range prove that untangle/split/mergeConsecutive/coalesce keep every candidate non-empty, ordered by target "
   "position, inside the token bounds and convertible to a byte range start <= end inside the target, for EVERY list ordered by "
